@@ -444,8 +444,79 @@ fn contended_cases() -> Vec<(usize, Vec<String>)> {
     out
 }
 
+/// Times to live too large for the clocks (the largest i64, and values whose milliseconds or nanoseconds overflow): a
+/// command that accepts one must leave the key alive - right away, and after ten seconds and a sweeper pass - with its
+/// value intact; one that refuses it must leave the key as it was (a seeded overflow fallback turned "too far to
+/// represent" into "now": the key vanished at once). 7 key states x 8 commands x 4 values.
+fn huge_ttl_family() -> serde_json::Value {
+    use crate::resp::{self, R};
+    use serde_json::json;
+    let mut h = super::c05::Harness::new(crate::srv::SrvOpts::default());
+    let states = super::cmdtable::key_states();
+    let bigs = ["9223372036854775807", "9223372036854775", "9223372036000000000", "18446744073709551"];
+    let mut recs = Vec::new();
+    let mut errors: Vec<String> = Vec::new();
+    let mut n = 0u64;
+    let mut accepted = 0u64;
+    for (si, (sname, _)) in states.iter().enumerate() {
+        for big in bigs.iter() {
+            let cmds: Vec<Vec<&str>> = vec![vec!["EXPIRE", "k", big], vec!["PEXPIRE", "k", big], vec!["SET", "k", "v", "EX", big], vec!["SET", "k", "v", "PX", big], vec!["SETEX", "k", big, "v"], vec!["PSETEX", "k", big, "v"],
+                vec!["SET", "k", "v", "NX", "EX", big], vec!["SET", "k", "v", "XX", "EX", big]];
+            for (ci, c) in cmds.iter().enumerate() {
+                for short_first in [false, true] {
+                    n += 1;
+                    let mut run = || -> Result<Option<String>, String> {
+                        h.ensure()?;
+                        h.seed_state(si)?;
+                        if short_first && si != 0 {
+                            h.aux_call(&["PEXPIRE", "k", "300"])?;
+                        }
+                        let before = resp::show(&h.aux_call(&["EXISTS", "k"])?);
+                        let r = h.aux_call(c)?;
+                        let took = match &r {
+                            R::Int(1) => true,
+                            R::Simple(_) => true,
+                            _ => false,
+                        };
+                        if !took {
+                            // refused (or a condition not met): the key is as it was
+                            let after = resp::show(&h.aux_call(&["EXISTS", "k"])?);
+                            return Ok(if after != before { Some(format!("refused-with-{}-but-the-key-changed", resp::class(&r))) } else { None });
+                        }
+                        accepted += 1;
+                        if h.aux_call(&["EXISTS", "k"])? != R::Int(1) {
+                            return Ok(Some("accepted-and-the-key-is-gone-at-once".into()));
+                        }
+                        crate::vtime::tick(10_000_000_000).map_err(|_| "settle timeout during tick".to_string())?;
+                        if h.aux_call(&["EXISTS", "k"])? != R::Int(1) {
+                            return Ok(Some("accepted-and-the-key-is-gone-ten-seconds-later".into()));
+                        }
+                        match h.aux_call(&["TTL", "k"])? {
+                            R::Int(t) if t == -1 || t > 1_000_000 => Ok(None),
+                            other => Ok(Some(format!("accepted-and-TTL-reports-{}", resp::show(&other)))),
+                        }
+                    };
+                    match run() {
+                        Ok(Some(p)) => recs.push(json!({"state": sname, "command": c.join(" "), "short_ttl_first": short_first, "problem": p, "class": format!("{}|{}", ["EXPIRE", "PEXPIRE", "SET EX", "SET PX", "SETEX", "PSETEX", "SET NX EX", "SET XX EX"][ci], p)})),
+                        Ok(None) => {}
+                        Err(e) => {
+                            errors.push(format!("{} on {}: {}", c.join(" "), sname, e));
+                            h.srv = None;
+                            h.aux = None;
+                        }
+                    }
+                }
+            }
+        }
+    }
+    json!({"huge": {"cases": n, "accepted": accepted, "recs": recs, "errors": errors}})
+}
+
 fn contended_extra(_tier: &str, task: &serde_json::Value, io: &mut crate::pool::WorkerIo) -> Option<serde_json::Value> {
     use serde_json::json;
+    if task.get("hugettl").is_some() || task.get("replay").map(|r| r["kind"].as_str() == Some("hugettl")).unwrap_or(false) {
+        return Some(huge_ttl_family());
+    }
     let (a, b) = if let Some(r) = task.get("contended") {
         (r[0].as_u64().unwrap_or(0) as usize, r[1].as_u64().unwrap_or(0) as usize)
     } else if task.get("replay").map(|r| r["kind"].as_str() == Some("contended")).unwrap_or(false) {
@@ -586,7 +657,23 @@ fn window_parent(pool: &crate::pool::Pool, tier: &str, report: &mut crate::repor
 
 fn extras_parent(pool: &crate::pool::Pool, tier: &str, report: &mut crate::report::RunReport) -> serde_json::Value {
     let mut w = window_parent(pool, tier, report);
-    let c = contended_parent(pool, tier, report);
+    let mut c = contended_parent(pool, tier, report);
+    match &pool.map(vec![serde_json::json!({"hugettl": true})], 0)[0] {
+        crate::pool::Outcome::Done(v) => {
+            let hv = &v["huge"];
+            for e in hv["errors"].as_array().cloned().unwrap_or_default() {
+                report.machinery_errors.push(format!("huge TTL: {}", e));
+            }
+            for r in hv["recs"].as_array().cloned().unwrap_or_default() {
+                report.deviations.push(crate::report::Deviation { property: "C02".into(), sig: format!("C02|HUGE-TTL|{}|state={}", r["class"].as_str().unwrap_or(""), r["state"].as_str().unwrap_or("")), replay: serde_json::json!({"kind": "hugettl", "case": r}) });
+            }
+            println!("  c02-huge-ttl: cases={} accepted={} with-a-problem={}", hv["cases"], hv["accepted"], hv["recs"].as_array().map(|a| a.len()).unwrap_or(0));
+            if let Some(m) = c.as_object_mut() {
+                m.insert("times_to_live_too_large_for_the_clocks".into(), serde_json::json!({"cases": hv["cases"], "accepted_by_the_server": hv["accepted"], "what": "7 key states x {EXPIRE, PEXPIRE, SET EX, SET PX, SETEX, PSETEX, SET NX EX, SET XX EX} x 4 values (largest i64; values whose ms / ns overflow) x {plain, after a 300 ms TTL}: accepted => the key is alive at once and after 10 s and a sweeper pass, TTL reports -1 or a distant time; refused => the key is as it was"}));
+            }
+        }
+        crate::pool::Outcome::Died { status, .. } => report.machinery_errors.push(format!("huge-TTL worker died: {}", status)),
+    }
     if let (Some(wm), Some(cm)) = (w.as_object_mut(), c.as_object()) {
         for (k, v) in cm.iter() {
             wm.insert(k.clone(), v.clone());
